@@ -642,7 +642,7 @@ def m_vec_macro(ex, st, callee, A):
         return Agg('struct', '~vec_iter', None, list(A[0].fields))
     if re.search(r'^<(?:std::vec::|alloc::vec::)?Vec<.*> as Deref(Mut)?>::deref(_mut)?$', callee) and isinstance(A[0], Ref) and isinstance(deref_(A[0]), Agg) and deref_(A[0]).name == '~vec':
         return A[0]
-    if re.search(r'slice::<impl \[.*\]>::iter$', callee) and isinstance(A[0], Ref):
+    if (re.search(r'slice::<impl \[.*\]>::iter$', callee) or re.search(r'^<&(?:std::vec::|alloc::vec::)?Vec<.*> as IntoIterator>::into_iter$', callee)) and isinstance(A[0], Ref):
         v = deref_(A[0])
         if isinstance(v, Agg) and v.name == '~vec':
             f2, p2 = ex.resolve_place(st, A[0].fid, A[0].place) if not isinstance(ex.read(st, A[0].fid, A[0].place), Agg) else (A[0].fid, A[0].place)
